@@ -14,7 +14,7 @@ def base_cfg(rng: random.Random) -> dict:
     for k, vals in (("queue_budget", [1, 3, 10000]), ("iter_cap", [1, 2, 50]), ("node_budget", [0.5, 1.5, 100.0]), ("radius_cap", [1, 2, 4])):
         if rng.random() < 0.4:
             t1[k] = rng.choice(vals)
-    t1["cache"] = {"enabled": rng.random() < 0.7}
+    t1["cache"] = {"enabled": rng.random() < 0.7, **rng.choice([{}, {"ttl_s": 0}, {"ttl_s": 0}, {"ttl_s": 300}])}  # ttl 0 = entries never expire
     t2 = cfg["t2"]
     t2["k_retrieval"] = rng.choice([1, 2, 4, 8, 64])
     t2["sim_threshold"] = rng.choice([-1.0, 0.0, 0.0, 0.1, 0.3])
@@ -28,7 +28,7 @@ def base_cfg(rng: random.Random) -> dict:
     t2["exact_recent_days"] = rng.choice([0, 30, 365])
     if rng.random() < 0.4:
         t2["residual_cap_per_turn"] = rng.choice([0, 1, 32])
-    t2["cache"] = {"enabled": rng.random() < 0.7}
+    t2["cache"] = {"enabled": rng.random() < 0.7, **rng.choice([{}, {}, {"ttl_s": 0}, {"ttl_s": 300}])}
     t3 = cfg["t3"]
     t3["tokens"] = rng.choice([1, 4, 16, 256])
     t3["max_ops_per_turn"] = rng.choice([1, 2, 3, 8])
@@ -41,7 +41,7 @@ def base_cfg(rng: random.Random) -> dict:
     t4["churn_cap_edges"] = rng.choice([0, 1, 4, 64])
     t4["snapshot_every_n_turns"] = rng.choice([1, 1, 2, 3])
     t4["cache_bust_mode"] = rng.choice(["on-apply", "none"])
-    t4["cache"] = {"enabled": rng.random() < 0.7, "namespaces": rng.choice([["t2:semantic"], []])}
+    t4["cache"] = {"enabled": rng.random() < 0.7, "namespaces": rng.choice([["t2:semantic"], []]), **rng.choice([{}, {}, {"ttl_sec": 0}, {"ttl_sec": 600}])}
     if rng.random() < 0.3:
         t4["cooldowns"] = {"EditGraph": rng.choice([0, 1, 3])}
     return cfg
